@@ -120,11 +120,12 @@ example (H : Bytes → Bytes) :
 /-! ## 5. membership proofs -/
 
 /-- C10.6 completeness: for a present key, the list returned by `GetProof` verifies against the
-state root to the stored value. (`H` = double SHA-256 in the code; needed of it: injective on the
-byte strings involved and 32-byte output. `Bounded t`: extension keys ≤ 136 nibbles, values ≤
-MaxValueLength — implied by the key/value limits of `Put`, see `bounded_of_contents`.) -/
-theorem proof_complete (H : Bytes → Bytes) (hinj : Function.Injective H) (h32 : ∀ b, (H b).length = 32)
-    (t : Node) (hb : Bounded t) (key : Bytes) (v : Val) (hv : lookup t (toNibbles key) = some v) :
+state root to the stored value. (`H` = double SHA-256 in the code; needed of it: 32-byte output and
+no collision among the trie's own node encodings. `Bounded t`: extension keys ≤ 136 nibbles,
+values ≤ MaxValueLength — implied by the key/value limits of `Put`, see `bounded_of_contents`.) -/
+theorem proof_complete (H : Bytes → Bytes) (h32 : ∀ b, (H b).length = 32)
+    (t : Node) (hcf : CollFree H (nodeEncs H t)) (hb : Bounded t) (key : Bytes) (v : Val)
+    (hv : lookup t (toNibbles key) = some v) :
     ∃ ps, getProof H t (toNibbles key) = some ps ∧ verifyProof H (rootHash H t) key ps = .found v := by
   have hsome : (getProof H t (toNibbles key)).isSome = true := by rw [getProof_isSome, hv]; rfl
   obtain ⟨ps, hps⟩ := Option.isSome_iff_exists.mp hsome
@@ -132,29 +133,52 @@ theorem proof_complete (H : Bytes → Bytes) (hinj : Function.Injective H) (h32 
     cases ht : t.isEmpty with
     | false => rfl
     | true => rw [isEmpty_iff.mp ht] at hv; simp [lookup] at hv
-  obtain ⟨x, hx, hw⟩ := walk_complete hinj h32 ps t (ps.length + 1) (toNibbles key) ps hb hps (fun _ h => h) (by omega)
+  have hcf' : CollFree H ps := collFree_subset hcf (getProof_subset H t _ ps hps)
+  obtain ⟨x, hx, hw⟩ := walk_complete hcf' h32 t (ps.length + 1) (toNibbles key) ps hb hps (fun _ h => h) (by omega)
   refine ⟨ps, hps, ?_⟩
   rw [hv] at hx; cases hx
   simpa [verifyProof, rootHash, hne] using hw
 
 /-- C10.6 soundness: for ANY list of byte strings `ps`, if verification against the root of a
 non-empty trie `t` returns a value, that value is what `t` stores under the key (so: never a wrong
-value, never a value for an absent key). -/
-theorem proof_sound (H : Bytes → Bytes) (hinj : Function.Injective H) (h32 : ∀ b, (H b).length = 32)
+value, never a value for an absent key) — unless `H` has a collision among the presented byte
+strings and the trie's own node encodings. (A hash with 32-byte output cannot be injective, so the
+hypothesis is stated on exactly the byte strings that occur.) -/
+theorem proof_sound (H : Bytes → Bytes) (h32 : ∀ b, (H b).length = 32)
     (t : Node) (hb : Bounded t) (hne : t.isEmpty = false) (key : Bytes) (ps : List Bytes) (v : Val)
+    (hcf : CollFree H (ps ++ nodeEncs H t))
     (h : verifyProof H (rootHash H t) key ps = .found v) : lookup t (toNibbles key) = some v := by
   simp only [verifyProof, rootHash, hne] at h
-  exact walk_sound hinj h32 ps t _ _ _ hb hne (by simpa using h)
+  exact walk_sound hcf h32 ps (fun e he => by simp [he]) t _ _ _ hb hne (fun e he => by simp [he]) (by simpa using h)
 
-/-- … and against the root of the EMPTY trie (32 zero bytes) nothing verifies, provided no byte
-string hashes to zero. -/
-theorem proof_sound_empty (H : Bytes → Bytes) (hz : ∀ b, H b ≠ zero32) (key : Bytes) (ps : List Bytes) (v : Val) :
-    verifyProof H (rootHash H .empty) key ps ≠ .found v := by
+/-- … and against the root of the EMPTY trie (32 zero bytes) nothing verifies, provided none of
+the presented byte strings hashes to zero. -/
+theorem proof_sound_empty (H : Bytes → Bytes) (key : Bytes) (ps : List Bytes) (hz : ∀ b ∈ ps, H b ≠ zero32)
+    (v : Val) : verifyProof H (rootHash H .empty) key ps ≠ .found v := by
   have hf : fetch H ps zero32 = none := by
     unfold fetch
     apply List.find?_eq_none.mpr
-    intro p _; simpa using hz p
+    intro p hp; simpa using hz p (by simpa using hp)
   simp [verifyProof, rootHash, Node.isEmpty, walk, hf]
+
+-- non-vacuity (toy 32-byte hash without collisions on the byte strings involved): the trie
+-- {12 ↦ 07, 13 ↦ 08} = ext [1] (branch {2 ↦ leaf, 3 ↦ leaf}); its proof for key 0x12 verifies, and
+-- a verifying list implies the stored value.
+def exT : Node := put (put .empty [1,2] [7]) [1,3] [8]
+
+theorem exT_bounded : Bounded exT := by
+  simp [exT, put, lcpSplit, mkExt, newSub, upd, noKids, Bounded]
+  refine ⟨by decide, fun i => ?_⟩
+  split <;> (try split) <;> simp [Bounded, maxValueLength]
+
+example : ∃ ps, getProof toyH exT (toNibbles [0x12]) = some ps ∧
+    verifyProof toyH (rootHash toyH exT) [0x12] ps = .found [7] :=
+  proof_complete toyH toyH_len exT (by decide) exT_bounded
+    [0x12] [7] (by decide)
+
+example : lookup exT (toNibbles [0x12]) = some [7] :=
+  proof_sound toyH toyH_len exT exT_bounded (by decide) [0x12]
+    ((getProof toyH exT [1,2]).getD []) [7] (by decide) (by decide)
 
 /-- the limits of `Put` (trie.go:147-152) give `Bounded`. -/
 theorem bounded_of_contents (t : Node) (hw : WF t)
